@@ -536,11 +536,15 @@ class Engine:
             if self.is_rec(t) or t.get("k") == "array":
                 obj = self.fresh("tmp", "init")
                 outs = [(st, 0)]
+                rec_ = self.db.rec_by_id.get(t.get("rid")) if self.is_rec(t) else None
+                fnames = [fl["n"] for fl in (rec_ or {}).get("fields", [])]
                 for i, a in enumerate(e["args"]):
                     nxt = []
                     for s, _ in outs:
                         for s2, v in self.ev(s, fr, a):
                             s2.mem[("idx", obj, C(i))] = v
+                            if i < len(fnames):
+                                s2.mem[("fld", obj, fnames[i])] = v   # aggregate initialisation: members in declaration order
                             nxt.append((s2, 0))
                     outs = nxt
                 return [(s, obj) for s, _ in outs]
@@ -913,8 +917,20 @@ class Engine:
                 if clo and clo[0] == "closure":
                     outs += self.call_closure(s, self._fr(s, fr), clo, args[1:], loc, callee_id=fnref["id"])
                 else:
-                    for s2, av in self.ev_args(s, self._fr(s, fr), args[1:], ["v"] * (len(args) - 1)):
-                        outs += self.opaque_call(s2, name, av, o, loc, e)
+                    # a named functor class (not a lambda): its call operator is an ordinary member function
+                    callee_ = self.callee_fn(fnref)
+                    f2_ = self._fr(s, fr)
+                    if callee_ is not None and f2_.depth < self.max_depth:
+                        pm = ["lv" if ((p_["t"] or {}).get("ref") or self.is_rec(p_["t"] or {})) else "v" for p_ in callee_["params"]]
+                        pm = pm[:len(args) - 1] + ["v"] * max(0, len(args) - 1 - len(pm))
+                        for s2, av in self.ev_args(s, f2_, args[1:], pm):
+                            if s2.status != "run":
+                                outs.append((s2, ("void",)))
+                                continue
+                            outs += self.inline(s2, callee_, self.addr(o), av, pm, loc, want_lv=bool((e.get("t") or {}).get("ref")) or bool(e.get("lv")))
+                    else:
+                        for s2, av in self.ev_args(s, f2_, args[1:], ["v"] * (len(args) - 1)):
+                            outs += self.opaque_call(s2, name, av, o, loc, e)
             return outs
         callee = self.callee_fn(fnref)
         # object argument
@@ -937,6 +953,15 @@ class Engine:
             return self.ev_lv(st, fr, args[0])
         if name == "std::addressof" and len(args) == 1:
             return [(s, self.addr(lv)) for s, lv in self.ev_lv(st, fr, args[0])]
+        if name == "std::exchange" and len(args) == 2:
+            # old = obj; obj = new_value; return old
+            outs = []
+            for s, lv in self.ev_lv(st, fr, args[0]):
+                for s2, nv in self.ev(s, self._fr(s, fr), args[1]):
+                    old = self.load(s2, lv)
+                    self.store(s2, lv, nv, loc=loc, ty=(args[0].get("t") or {}))
+                    outs.append((s2, old))
+            return outs
         if name in ABORT_FUNCS or (fnref.get("noret") and callee is None):
             st.status = "abort"
             return [(st, ("void",))]
@@ -1026,6 +1051,15 @@ class Engine:
             r = ("ucall", next(self.uid), name, tuple(av), thisv)
         vals = [self.load(st, a) if (isinstance(a, tuple) and a and a[0] in ("var", "tmp") and a in st.mem) else a for a in av]
         self.emit(st, "CALL", name, list(av), thisv, loc=loc, extra={"ret": r, "fnid": (e.get("fn") or {}).get("id"), "rt": e.get("t"), "argvals": vals, "ta": (e.get("fn") or {}).get("ta")})
+        if short in ("lock", "lock_shared", "unlock", "unlock_shared") and thisv is not None and "mutex" in (name or "") and not av:
+            # a mutex locked / unlocked directly (e.g. by a hand-written guard class): presented like the standard guards so that the
+            # lock rules see one vocabulary - CALL unique_lock|shared_lock(mutex) ... UNLOCK
+            m_lv = self.deref(thisv)
+            tag = ("rawlock", m_lv)
+            if short in ("lock", "lock_shared"):
+                self.emit(st, "CALL", "raw::" + ("unique_lock" if short == "lock" else "shared_lock"), [m_lv], None, loc=loc, extra={"ret": tag, "raw": True, "argvals": [m_lv]})
+            else:
+                self.emit(st, "UNLOCK", tag, "raw", loc=loc)
         return [(st, r)]
 
     def native_find_if(self, st, name, av, loc, e):
